@@ -9,4 +9,8 @@ rsync -a --delete --exclude target /verif/harness "$T/"
 cp /verif/KNOWN_FINDINGS.txt "$T/"; rm -rf "$T/replays"; cp -r /verif/replays "$T/replays"
 ln -sfn "$SRC" "$T/.jawk-src"
 ( cd "$T/harness" && CARGO_NET_OFFLINE=true cargo build --release -q 2> "$T/build.log" ) || { echo BUILD FAILED; tail -20 "$T/build.log"; exit 2; }
+case " $* " in *" C20 "*)
+  ( cd "$SRC" && cargo build --release -q --offline --bin jawk --target-dir "$T/jawk-bin" 2>> "$T/build.log" ) || { echo BIN BUILD FAILED; exit 2; }
+  export JAWK_BIN="$T/jawk-bin/release/jawk";;
+esac
 "$T/harness/target/release/jv" --root "$T" "$@"
